@@ -32,26 +32,28 @@ def _argv_cwd(argv, cwd):
 
 
 def generate(d, process, sensor, cal, scratch, name, *, cse=True, filtering=5.0, max_dt=0.1, kind="ekf", rng=None, container="set",
-             raw_noise=False, config_as_dict=False, noise_keys="same"):
+             raw_noise=False, config_as_dict=False, noise_keys="same", model_obj=None, symbol_assumptions=None):
     """returns paths; raises whatever the generator raises"""
     from formak import cpp
     root = os.path.join(scratch, name)
     os.makedirs(os.path.join(root, "generated", "formak"), exist_ok=True)
     header = os.path.join(root, "generated", "formak", f"{name}.h")
     source = os.path.join(root, f"{name}.cpp")
-    m = fk.ui_model(d, rng, container)
+    m = model_obj if model_obj is not None else fk.ui_model(d, rng, container, symbol_assumptions=symbol_assumptions)
+    am = fk.assume_map(d, symbol_assumptions) if symbol_assumptions else {}
+    sy = (lambda n: am.get(sympy.Symbol(n), sympy.Symbol(n)))
     cfg = cpp.Config(common_subexpression_elimination=cse, innovation_filtering=filtering, max_dt_sec=max_dt)
     if config_as_dict:     # the entry points also take the configuration as a plain dict (the repository's generator scripts do)
         cfg = {"common_subexpression_elimination": cse, "innovation_filtering": filtering, "max_dt_sec": max_dt}
     # the noise map may key its readings by Symbol where the sensor model keys them by str (names are what counts)
     nk = (lambda r_: sympy.Symbol(r_)) if noise_keys == "symbol" else (lambda r_: r_)
-    cal_map = {s: float(cal[s.name]) for s in d.calibration}
+    cal_map = {am.get(s, s): float(cal[s.name]) for s in d.calibration}
     with _argv_cwd(["generator.py", "--header", header, "--source", source, "--namespace", "verifns"], core.REPO), \
             contextlib.redirect_stdout(io.StringIO()):
         if kind == "ekf":
             r = cpp.compile_ekf(
-                m, process_noise={sympy.Symbol(n): (v if raw_noise else float(v)) for n, v in process.items()},
-                sensor_models={k: dict(rd) for k, rd in d.sensors.items()},
+                m, process_noise={sy(n): (v if raw_noise else float(v)) for n, v in process.items()},
+                sensor_models={k: {r_: sympy.sympify(e).xreplace(am) for r_, e in rd.items()} for k, rd in d.sensors.items()},
                 sensor_noises={k: {nk(r_): (v if raw_noise else float(v)) for r_, v in rd.items()} for k, rd in sensor.items()},
                 calibration_map=cal_map, config=cfg)
         else:
@@ -120,6 +122,22 @@ def make_main(d, name, kind="ekf") -> str:
             for r_ in sorted(rd):
                 w(f"  {{ {T}Options q; q.{r_} = 1.0; {T} z(q); for (int i = 0; i < {len(rd)}; ++i) if (z.data(i, 0) == 1.0) out << \"readingopt.{key}.{r_}=\" << i << \" \"; }}")
                 w(f"  {{ {T} z; z.data = {T}::DataT::Zero(); for (int i = 0; i < {len(rd)}; ++i) {{ z.data = {T}::DataT::Zero(); z.data(i, 0) = 1.0; if (z.{r_}() == 1.0) out << \"reading.{key}.{r_}=\" << i << \" \"; }} }}")
+    # reads through a CONST reference (the by-value accessors): every entry holds a different number
+    w(f"  {{ State s; for (int i = 0; i < {n}; ++i) s.data(i, 0) = 7.0 + i; const State& cs = s;")
+    for s_ in Ls:
+        w(f"   out << \"constread.state.{s_}=\" << B(cs.{s_}()) << \" \";")
+    w("  }")
+    if kind == "ekf":
+        w(f"  {{ Covariance c; for (int i = 0; i < {n}; ++i) for (int j = 0; j < {n}; ++j) c.data(i, j) = 100.0 * (i + 1) + j; const Covariance& cc = c;")
+        for s_ in Ls:
+            w(f"   out << \"constread.cov.{s_}=\" << B(cc.{s_}()) << \" \";")
+        w("  }")
+    for grp, cls, L in (("control", "Control", Lc), ("calibration", "Calibration", Lk)):
+        if L:
+            w(f"  {{ {cls} s; for (int i = 0; i < {len(L)}; ++i) s.data(i, 0) = 20.0 + i; const {cls}& cs = s;")
+            for s_ in L:
+                w(f"   out << \"constread.{grp}.{s_}=\" << B(cs.{s_}()) << \" \";")
+            w("  }")
     for grp, cls, L in (("control", "Control", Lc), ("calibration", "Calibration", Lk)):
         if L:
             w(f"  {{ {cls} s;")
@@ -183,6 +201,29 @@ def make_main(d, name, kind="ekf") -> str:
     w(" std::cout << out.str() << std::endl; }")
     w(" return 0; }")
     return "\n".join(o) + "\n"
+
+
+def const_read_problems(lay, d, kind="ekf"):
+    """the by-value (const) accessors read the entry the mutable accessor of the same name writes; returns a list of mismatches"""
+    bad = []
+    Ls = sorted(s.name for s in d.state)
+
+    def chk(field, slot_key, base, diag=False):
+        if field not in lay or slot_key not in lay:
+            return
+        slot = int(lay[slot_key])
+        want = (100.0 * (slot + 1) + slot) if diag else base + slot
+        got = rh.bitsf(lay[field])
+        if got != want:
+            bad.append(f"{field.split('.', 1)[1]}: const accessor reads {got!r}, the entry written through the mutable accessor holds {want!r}")
+    for s_ in Ls:
+        chk(f"constread.state.{s_}", f"state.{s_}", 7.0)
+        if kind == "ekf":
+            chk(f"constread.cov.{s_}", f"cov.{s_}", 0.0, diag=True)
+    for grp, L, base in (("control", sorted(s.name for s in d.control), 20.0), ("calibration", sorted(s.name for s in d.calibration), 20.0)):
+        for s_ in L:
+            chk(f"constread.{grp}.{s_}", f"{grp}.{s_}", base)
+    return bad
 
 
 def build(gen_info, d, extra_main=None, timeout=600):
